@@ -163,14 +163,22 @@ func (x *Exec) fresh(typ types.Type, hint string) Value {
 		t := vc.Fresh(hint, SStr)
 		vc.strFacts(t)
 		return VTerm{t}
-	case KRef, KMap, KFunc, KChan, KOther:
+	case KRef, KMap:
+		t := vc.Fresh(hint, SInt)
+		vc.Assert(Ge(t, IntLit(0))) // pre-existing objects; allocations of this function are negative
+		return VTerm{t}
+	case KFunc, KChan, KOther:
 		return VTerm{vc.Fresh(hint, SInt)}
 	case KAddr:
 		return VAddr{Kind: AOpaque, Opaque: vc.Fresh(hint, SInt), ElemT: typ.Underlying().(*types.Pointer).Elem()}
 	case KIface:
 		tag := vc.Fresh(hint+".t", SInt)
 		vc.Assert(Ge(tag, IntLit(0)))
-		return VIface{tag, vc.Fresh(hint+".v", SInt)}
+		val := vc.Fresh(hint+".v", SInt)
+		if typ.String() == "error" {
+			vc.Assert(Ge(val, IntLit(0)))
+		}
+		return VIface{tag, val}
 	case KSlice:
 		b := vc.Fresh(hint+".b", SInt)
 		o := vc.Fresh(hint+".o", SInt)
